@@ -228,6 +228,10 @@ def rule_r6(ctx):
     for c in f.calls("strcmp"):
         for b, (nz, z) in f.value_edges(c).items():
             early[b] = z       # scheme equals one of the path-only schemes
+    # the same comparison chain behind a boolean helper of the file (url_scheme_is_local(scheme))
+    for bid, k, h, c in G.predicate_calls(f, prog):
+        if any(True for _ in h.calls("strcmp")):
+            early[bid] = k
     n_ok = 0
     for s in rets:
         if not G.reaches(f, (f.entry, 0), [(s.b, s.i)], blocked=G.positions(can), cut=early):
